@@ -2,6 +2,8 @@ CONSTANTS
   MaxObjs = 1000
   MaxOps = 100000
   MaxSteps = 100000
+  NRepos = 2
+  Unscoped = {}
   JsonTree = FALSE
   StatusOnly = FALSE
   RemoveDrops = FALSE
